@@ -170,6 +170,7 @@ func runC09(t *testing.T, tier string) int {
 			t.Fatal(err)
 		}
 		defer w.Close()
+		w.LogOn = true
 		aw := &awaitWorld{w}
 		empty := &world.Snapshot{Cols: map[string][]string{}, Rows: map[string][]world.Row{}, TakenL: time.Date(2000, 1, 1, 0, 0, 0, 0, time.UTC)}
 		for _, cs := range cases {
